@@ -19,7 +19,7 @@ From TLV Require Import Base.Ops Base.Tensor Base.RSum Model.Svd Proofs.SvdProof
   Proofs.SvdNNProofs Proofs.SvdSymeigProofs Proofs.SvdRandProofs Proofs.SvdInterfaceProofs
   Proofs.SvdGramProofs Proofs.SvdSymeigFull Proofs.SvdMaskProofs Proofs.SvdDecisions
   Proofs.SvdWitness Proofs.SvdSymeigShapes Proofs.SvdEckartYoung Proofs.SvdRandE2E Proofs.SvdInterfaceAll Proofs.SvdSymeigBest Base.BigSum Model.SvdConj Proofs.SvdConjProofs Model.SvdValidate Proofs.SvdValidateProofs Proofs.SvdUnique Model.SvdComplex
-  Proofs.SvdRandTS Proofs.SvdComplexR Proofs.SvdComplexModel Proofs.SvdDecisions2 Proofs.SvdComplexFlip Proofs.SvdComplexRand Proofs.SvdDecisions3 Proofs.SvdComplexMask Proofs.SvdComplexSymeig.
+  Proofs.SvdRandTS Proofs.SvdComplexR Proofs.SvdComplexModel Proofs.SvdDecisions2 Proofs.SvdComplexFlip Proofs.SvdComplexRand Proofs.SvdDecisions3 Proofs.SvdComplexMask Proofs.SvdComplexSymeig Proofs.SvdComplexLiftModel.
 Import ListNotations.
 Local Open Scope nat_scope.
 
@@ -1569,3 +1569,56 @@ Example C05_symeig_conj_shapes_hyps_satisfiable :
   rect 2 1 [[(1, 0)]; [(0, 1)]] /\
   (forall G, let d := if 1 <? 2 then 2 else 1 in length (fst (eigh G)) = d /\ rect d d (snd (eigh G))).
 Proof. exact symeig_conj_shapes_witness. Qed.
+
+(* The model's LIST-BASED matrix product at the complex scalars (mmul CopsR) computes the complex sums (FULL): real and imaginary part of
+   every entry of X @ Y are sum_t (Xr Yr - Xi Yi) and sum_t (Xr Yi + Xi Yr) *)
+Theorem C05_complex_mmul_entries : forall n (X Y : list (list CR)) i j m, i < length X -> j < n ->
+  length (nth i X []) = m -> length Y = m ->
+  cre (mmul CopsR n X Y) i j = cprod_re m (cre X) (cim X) (cre Y) (cim Y) (fun _ => 1%R) i j /\
+  cim (mmul CopsR n X Y) i j = cprod_im m (cre X) (cim X) (cre Y) (cim Y) (fun _ => 1%R) i j.
+Proof. exact cmg_mmul. Qed.
+Print Assumptions C05_complex_mmul_entries.
+
+Example C05_complex_mmul_example :
+  cre (mmul CopsR 1 [[(0%R, 1%R)]] [[(0%R, 1%R)]]) 0 0 = (-1)%R /\ cim (mmul CopsR 1 [[(0%R, 1%R)]] [[(0%R, 1%R)]]) 0 0 = 0%R.
+Proof. exact cmg_mmul_example. Qed.
+
+(* randomized_svd over C, the lifting step U' = Q @ U AS COMPUTED BY THE MODEL (mmul CopsR on lists) - PARTIAL exactly as C05_randomized_lift_partial
+   over R: `M = Q B` (the range finder's Q covers the range of M, B = Q^H M) is the named hypothesis: (Q @ U, S, V) has Hermitian-orthonormal
+   columns, reproduces M, every truncation to k <= p terms has error = the discarded squared singular values and no matrix of rank <= k is closer *)
+Theorem C05_complex_randomized_lift_model_partial : forall d1 d2 c p k (Qm U V : list (list CR)) (Sg : list CR) (Mr Mi Br Bi : nat -> nat -> R),
+  length Qm = d1 -> (forall i, i < d1 -> length (nth i Qm []) = c) -> length U = c ->
+  herm_cols d1 c (cre Qm) (cim Qm) ->
+  (forall i j, i < d1 -> j < d2 -> Mr i j = cprod_re c (cre Qm) (cim Qm) Br Bi (fun _ => 1%R) i j) ->
+  (forall i j, i < d1 -> j < d2 -> Mi i j = cprod_im c (cre Qm) (cim Qm) Br Bi (fun _ => 1%R) i j) ->
+  herm_cols c p (cre U) (cim U) -> herm_rows p d2 (cre V) (cim V) ->
+  (forall a j, a < c -> j < d2 -> Br a j = cprod_re p (cre U) (cim U) (cre V) (cim V) (sre Sg) a j) ->
+  (forall a j, a < c -> j < d2 -> Bi a j = cprod_im p (cre U) (cim U) (cre V) (cim V) (sre Sg) a j) ->
+  (forall t, t < p -> (0 <= sre Sg t)%R) -> (forall i j, i <= j -> j < p -> (sre Sg j <= sre Sg i)%R) ->
+  k <= p ->
+  let U' := mmul CopsR p Qm U in
+  herm_cols d1 p (cre U') (cim U') /\
+  (forall i j, i < d1 -> j < d2 ->
+     Mr i j = cprod_re p (cre U') (cim U') (cre V) (cim V) (sre Sg) i j /\ Mi i j = cprod_im p (cre U') (cim U') (cre V) (cim V) (sre Sg) i j) /\
+  cfrob2 d1 d2 (fun i j => (Mr i j - cprod_re k (cre U') (cim U') (cre V) (cim V) (sre Sg) i j)%R)
+               (fun i j => (Mi i j - cprod_im k (cre U') (cim U') (cre V) (cim V) (sre Sg) i j)%R)
+  = rsum (p - k) (fun t => ((sre Sg (k + t)%nat)^2)%R) /\
+  (forall Xr Xi Yr Yi Cr Ci : nat -> nat -> R,
+     (forall i j, i < d1 -> j < d2 -> Cr i j = cprod_re k Xr Xi Yr Yi (fun _ => 1%R) i j) ->
+     (forall i j, i < d1 -> j < d2 -> Ci i j = cprod_im k Xr Xi Yr Yi (fun _ => 1%R) i j) ->
+     (rsum (p - k) (fun t => ((sre Sg (k + t)%nat)^2)%R) <= cfrob2 d1 d2 (fun i j => (Mr i j - Cr i j)%R) (fun i j => (Mi i j - Ci i j)%R))%R).
+Proof. exact complex_randomized_lift_model_partial. Qed.
+Print Assumptions C05_complex_randomized_lift_model_partial.
+
+Example C05_complex_lift_model_hyps_satisfiable :
+  let Qm := [[(0%R, 1%R)]] in let U := [[(1%R, 0%R)]] in let V := [[(1%R, 0%R)]] in let Sg := [(2%R, 0%R)] in
+  let Mr := fun _ _ : nat => 0%R in let Mi := fun _ _ : nat => 2%R in let Br := fun _ _ : nat => 2%R in let Bi := fun _ _ : nat => 0%R in
+  length Qm = 1 /\ (forall i, i < 1 -> length (nth i Qm []) = 1) /\ length U = 1 /\
+  herm_cols 1 1 (cre Qm) (cim Qm) /\
+  (forall i j, i < 1 -> j < 1 -> Mr i j = cprod_re 1 (cre Qm) (cim Qm) Br Bi (fun _ => 1%R) i j) /\
+  (forall i j, i < 1 -> j < 1 -> Mi i j = cprod_im 1 (cre Qm) (cim Qm) Br Bi (fun _ => 1%R) i j) /\
+  herm_cols 1 1 (cre U) (cim U) /\ herm_rows 1 1 (cre V) (cim V) /\
+  (forall a j, a < 1 -> j < 1 -> Br a j = cprod_re 1 (cre U) (cim U) (cre V) (cim V) (sre Sg) a j) /\
+  (forall a j, a < 1 -> j < 1 -> Bi a j = cprod_im 1 (cre U) (cim U) (cre V) (cim V) (sre Sg) a j) /\
+  (forall t, t < 1 -> (0 <= sre Sg t)%R) /\ (forall i j, i <= j -> j < 1 -> (sre Sg j <= sre Sg i)%R) /\ 1 <= 1.
+Proof. exact complex_lift_model_hyps_witness. Qed.
